@@ -363,7 +363,7 @@ Proof. induction x as [|p x IH]; [reflexivity|]. unfold vadd in *. cbn [map vmap
 (* ------------------------------------------------------------- main theorem *)
 Ltac fxind2 e :=
   induction e as [p|p| |c|c|g|a b c|s f IHf|s f IHf|v f IHf|f IHf g IHg|f IHf c|f IHf t|f IHf a u c
-                 |f IHf g IHg|f IHf|qb IHq|k f IHf g IHg].
+                 |f IHf g IHg|f IHf|qb IHq|k f IHf g IHg|pb P].
 
 Theorem moreau_all e : forall n w x sigma p q,
   wf n e -> D e -> length w = n -> length x = n -> 0 < sigma ->
@@ -494,6 +494,9 @@ Proof.
       - rewrite vscal_length. auto. }
     rewrite vscal_app, vadd_app by (rewrite vscal_length; congruence).
     rewrite H1, H2. apply firstn_skipn.
+  - (* FPair *) cbn [wf] in Hwf. destruct Hwf as (_ & Hm & _).
+    cbn [prox] in Hp. unfold ProxRules.cprox in Hq. cbn [cconj prox] in Hq.
+    exact (Hm w pb sigma x r q Lw Lx Hs Hp Hq).
 Qed.
 
 End M.
